@@ -566,6 +566,34 @@ theorem cacheOK_empty (s : Store) (j : Nat) : CacheOK s j JCache.empty := Or.inl
 theorem inv2_exec {j : Nat} {s : Sys} {e e' : Nat} (l : Label) (h1 : Inv1 j s e) (h2 : Inv2 j s e)
     (hl : l.resets j = false) (h1' : Inv1 j (s.exec l) e') : Inv2 j (s.exec l) e' := by
   cases l with
+  | truncSnap j' =>
+    simp only [Sys.exec] at h1' ⊢
+    have hent : ∀ n, (s.store.del (.snap j')) (.ent j n) = s.store (.ent j n) := by intro n; simp [Store.del]
+    have hhd : (s.store.del (.snap j')) (.head j) = s.store (.head j) := by simp [Store.del]
+    have hee : e = e' := EntRange.unique h1.range (by intro n; rw [← hent n]; exact h1'.range n)
+    subst hee
+    have hH : headOf (s.store.del (.snap j')) j = headOf s.store j := headOf_congr _ _ _ hhd
+    have hx : Ext s.store (s.store.del (.snap j')) j e := ⟨fun m _ _ => hent m, by rw [hH]; exact Nat.le_refl _⟩
+    refine ⟨hx.wf h2.wf, by simpa [Store.del] using h2.tail, ?_, ?_, ?_⟩
+    · intro v hv
+      by_cases hj : j' = j
+      · subst hj; simp [Store.del] at hv
+      · have hv' : s.store (.snap j) = some v := by
+          have : (s.store.del (.snap j')) (.snap j) = s.store (.snap j) :=
+            Store.del_other _ _ _ (by simp; exact fun h => hj h.symm)
+          rw [← this]; exact hv
+        obtain ⟨a, t, b1, b2, b3, b4⟩ := h2.snap v hv'
+        exact ⟨a, t, b1, b2, by rw [hH]; exact b3, by rw [hx.tableAt a (by have := h1.he; omega)]; exact b4⟩
+    · intro c slot
+      have hp1 := h1.cache c slot
+      have hp2 := h1.he
+      show CacheOK (s.store.del (.snap j')) j ((s.cl c).cache j slot)
+      exact hx.cacheOK _ (by omega) h1.he (h2.cache c slot)
+    · intro c slot k pc hon hk
+      have hpcOn := pcOn_of_onJ hon
+      show PcOK (s.store.del (.snap j')) j ((s.cl c).cache j slot) k pc
+      exact hx.pcOK _ k pc (fun p hp => by have := h1.known c pc p hpcOn hp; have := h1.he; omega)
+        (fun n hn => by subst hn; have := h1.ph c n hpcOn; omega) (h2.pcs _ _ _ _ hon hk)
   | start c st =>
     have hsum := start_summary s c st j (by simpa [Label.resets] using hl) h1.alloc
     simp only [Sys.exec] at h1' ⊢
